@@ -211,7 +211,8 @@ class RealConn(object):
                 'hi_in': c.highest_inbound_stream_id, 'hi_out': c.highest_outbound_stream_id,
                 'closed': dict((k, (v.name if v is not None else None)) for k, v in c._closed_streams.items()) if len(c._closed_streams) < 64 else None,
                 'local': dict((int(k), list(v)) for k, v in c.local_settings._settings.items()),
-                'remote': dict((int(k), list(v)) for k, v in c.remote_settings._settings.items())}
+                'remote': dict((int(k), list(v)) for k, v in c.remote_settings._settings.items()),
+                'hdr_pending': bool(c.incoming_buffer._headers_buffer)}
 
     # -- execution -----------------------------------------------------------
     def execute(self, op):
